@@ -205,13 +205,26 @@ func (s *ObjectSchema) ToJ5Object() *schema_j5pb.Object {
 }
 
 func (s *ObjectSchema) ClientProperties() []*ObjectProperty {
+	return s.clientProperties(map[*ObjectSchema]struct{}{})
+}
+
+// clientProperties tracks the objects being flattened so that an object which
+// is (directly or indirectly) flattened into itself terminates: the recursive
+// occurrence contributes no properties.
+func (s *ObjectSchema) clientProperties(flattening map[*ObjectSchema]struct{}) []*ObjectProperty {
+	if _, ok := flattening[s]; ok {
+		return nil
+	}
+	flattening[s] = struct{}{}
+	defer delete(flattening, s)
+
 	properties := make([]*ObjectProperty, 0, len(s.Properties))
 	for _, prop := range s.Properties {
 		switch propType := prop.Schema.(type) {
 		case *ObjectField:
 			if propType.Flatten {
 
-				children := propType.Schema().ClientProperties()
+				children := propType.Schema().clientProperties(flattening)
 				for _, child := range children {
 					child := child.nestedClone(prop.ProtoField)
 					properties = append(properties, child)
